@@ -5,7 +5,8 @@
     validated against cdshealpix by the correspondence run (assumption A-hpx). *)
 From Coq Require Import List NArith.
 From MOC.Base Require Import RangeSet.
-From MOC.Model Require Import Qty Query Build Neigh NeighHpx NeighTF.
+From Coq Require Import Permutation.
+From MOC.Model Require Import Qty Query Build Neigh NeighHpx NeighTF FloodFill FloodFillProofs.
 Import ListNotations.
 Open Scope N_scope.
 
@@ -111,6 +112,30 @@ Example C17_nonvacuous_split :
   fill_okb (nb8 0) [0; 1; 2; 3; 4; 5; 6; 7] [0; 1; 2; 3; 4; 5; 6; 7; 8] = false.
 Proof. repeat split; vm_compute; reflexivity. Qed.
 
+(** ---------- the flood fill of split_into_joint_mocs_gen as written (Model/FloodFill.v) ----------
+    FULL statement wanted: the components are exactly the connected components of the MOC for the adjacency
+    the external edges define.  PROVED here, for ANY external-edge function (right or wrong): both loops end
+    within their fuel, no component is empty and every cell of the MOC is in exactly one component
+    (the concatenation of the components is a permutation of the cells).  MISSING for the full statement:
+    connectedness of each component and non-adjacency of two components; these are decided on every output
+    of the implementation by the verified checker (C17_split_checker_yes / _no). *)
+Theorem C17_split_floodfill_partition_partial : forall maxd dmax (ext : N -> N -> list N) cells,
+  maxd <= 64 -> Forall (fun c => fst c <= maxd) cells ->
+  exists comps, ff_split maxd dmax ext cells = Some comps /\
+                Forall (fun c => c <> []) comps /\ Permutation (concat comps) cells.
+Proof. exact split_partition. Qed.
+
+(** decoding a zuniq gives back the cell (trailing zeros, shift) *)
+Theorem C17_zuniq_roundtrip : forall maxd d i, d <= maxd -> maxd <= 64 ->
+  ff_from_zuniq maxd (ff_zuniq maxd d i) = (d, i).
+Proof. exact from_zuniq_zuniq. Qed.
+
+Example C17_nonvacuous_floodfill :
+  ff_split 29 1 (ext_of (nb4 1) 1) [(0, 0); (0, 2); (1, 20)] = Some [[(0, 0)]; [(0, 2)]; [(1, 20)]] /\
+  ff_split 29 1 (ext_of (nb8 1) 1) [(0, 0); (0, 2); (1, 20)] = Some [[(0, 0); (0, 2)]; [(1, 20)]] /\
+  ff_split 29 1 (ext_of (nb4 1) 1) [(0, 0); (1, 19); (0, 10)] = Some [[(0, 0); (1, 19)]; [(0, 10)]].
+Proof. repeat split; vm_compute; reflexivity. Qed.
+
 Print Assumptions C17_expanded_exact.
 Print Assumptions C17_expanded_valid.
 Print Assumptions C17_contracted_is_dual.
@@ -126,3 +151,5 @@ Print Assumptions C17_tf_expanded_exact.
 Print Assumptions C17_tf_contracted_exact.
 Print Assumptions C17_tf_contracted_is_dual.
 Print Assumptions C17_tf_contracted_d08_refuted.
+Print Assumptions C17_split_floodfill_partition_partial.
+Print Assumptions C17_zuniq_roundtrip.
